@@ -293,19 +293,13 @@ func (p *pinner) doPinRecursive(ctx context.Context, c cid.Cid, fetch bool, name
 	p.lock.Lock()
 	defer p.lock.Unlock()
 
-	found, err := p.cidRIndex.HasAny(ctx, cidKey)
+	// Do not return immediately when the CID is already pinned recursively!
+	// The existing recursive pins are replaced below so that the pin is
+	// re-added with the new name, but only after the graph has been fetched:
+	// a failed fetch must leave the existing pin in place.
+	repin, err := p.cidRIndex.HasAny(ctx, cidKey)
 	if err != nil {
 		return err
-	}
-	// Do not return immediately! Just remove the recursive pins for the current CID.
-	// This allows the process to continue and the pin to be re-added with a new name.
-	//
-	// TODO: remove this to support multiple pins per CID
-	if found {
-		_, err = p.removePinsForCid(ctx, c, ipfspinner.Recursive)
-		if err != nil {
-			return err
-		}
 	}
 
 	dirtyBefore := p.dirty
@@ -331,8 +325,14 @@ func (p *pinner) doPinRecursive(ctx context.Context, c cid.Cid, fetch bool, name
 		return err
 	}
 
-	// Only look again if something has changed.
-	if p.dirty != dirtyBefore {
+	if repin {
+		// TODO: remove this to support multiple pins per CID
+		_, err = p.removePinsForCid(ctx, c, ipfspinner.Recursive)
+		if err != nil {
+			return err
+		}
+	} else if p.dirty != dirtyBefore {
+		// Only look again if something has changed.
 		found, err := p.cidRIndex.HasAny(ctx, cidKey)
 		if err != nil {
 			return err
@@ -343,7 +343,7 @@ func (p *pinner) doPinRecursive(ctx context.Context, c cid.Cid, fetch bool, name
 	}
 
 	// TODO: remove this to support multiple pins per CID
-	found, err = p.cidDIndex.HasAny(ctx, cidKey)
+	found, err := p.cidDIndex.HasAny(ctx, cidKey)
 	if err != nil {
 		return err
 	}
